@@ -15,9 +15,9 @@ Local Notation vnth v i := (nth i v zero).
 
 Hypothesis Fth : field_theory zero one (fadd K) (fmul K) (fsub K) (fopp K) (fdiv K) (finv K) (@eq K).
 Add Field Kfield05 : Fth.
-Hypothesis small6_0 : small6 K zero = true.
+(* the spec's "coincide" test (|d| < 1e-7) is below the code's switch (|d| < 1e-6) *)
+Hypothesis small_mono : forall d : K, small7 K d = true -> small6 K d = true.
 Hypothesis feqb_eq : forall a b : K, feqb K a b = true -> a = b.
-Hypothesis feqb_refl : forall a : K, feqb K a a = true.
 
 Lemma ksum_vsum l : ksum K l = vsum K l.
 Proof. induction l as [|a l IH]; [reflexivity|]. cbn. rewrite IH. reflexivity. Qed.
@@ -79,14 +79,16 @@ Proof.
 Qed.
 
 (* ---------------------------------------------------------------- element-wise layers *)
-Lemma rescale_ratio u m : unit_ok K u -> rescale K u m = m *! ratio K u.
+(* scope of one recorded unit: not between lo and the code's switch *)
+Definition unit_ok5 (u : urec K) : Prop :=
+  small7 K (ix u -! ir u) = true \/ small6 K (ix u -! ir u) = false.
+
+Lemma rescale_ratio u m : unit_ok5 u -> rescale K u m = m *! ratio K u.
 Proof.
-  intros [Hf Hb]. unfold rescale, ratio. cbv zeta.
-  destruct (small6 K (ix u -! ir u)) eqn:E.
-  - rewrite (Hb eq_refl), feqb_refl. reflexivity.
-  - destruct (feqb K (ix u) (ir u)) eqn:E2; [|reflexivity].
-    apply feqb_eq in E2. rewrite E2 in E.
-    replace (ir u -! ir u) with zero in E by ring. rewrite small6_0 in E. discriminate.
+  intros H. unfold rescale, ratio, below_lo. cbv zeta. destruct H as [H|H].
+  - rewrite H, (small_mono _ H). reflexivity.
+  - rewrite H. destruct (small7 K (ix u -! ir u)) eqn:E; [|reflexivity].
+    rewrite (small_mono _ E) in H. discriminate.
 Qed.
 
 Lemma rule_act_cons u us m :
@@ -94,7 +96,7 @@ Lemma rule_act_cons u us m :
   (vnth m 0 *! ratio K u) :: map (fun j => vnth m (S j) *! ratio K (nth j us (u0 K))) (seq 0 (length us)).
 Proof. unfold rule_act. cbn [length seq map nth]. rewrite <- seq_shift, map_map. reflexivity. Qed.
 
-Lemma rule_act_eqn us : forall m, Forall (unit_ok K) us -> eqn (map2 (rescale K) us m) (rule_act K us m).
+Lemma rule_act_eqn us : forall m, Forall unit_ok5 us -> eqn (map2 (rescale K) us m) (rule_act K us m).
 Proof.
   induction us as [|u us IH]; intros m H i.
   - cbn. destruct i; reflexivity.
@@ -121,22 +123,58 @@ Proof.
   - cbn in Hp. discriminate.
 Qed.
 
+(* [chain5 tr x r yx yr]: the trace is the forward pass of the pair (x, r), it contains no max-pool and
+   every recorded unit is in scope (unit_ok5).  Unlike C04's [chain] it does NOT ask the near-coincident
+   inputs to be equal: C05 is about which slope is used, not about exact summation-to-delta. *)
+Fixpoint chain5 (net : list (layer K)) (x r yx yr : list K) : Prop :=
+  match net with
+  | [] => yx = x /\ yr = r
+  | Affine W b :: n =>
+      Forall (fun row => length row = length x) W /\ in_dim K W = length x /\
+      length x = length r /\ length b = length W /\
+      chain5 n (aff K W b x) (aff K W b r) yx yr
+  | Act us :: n =>
+      map ix us = x /\ map ir us = r /\ Forall unit_ok5 us /\
+      chain5 n (map ox us) (map or_ us) yx yr
+  | Pool _ _ _ :: _ => False
+  end.
+
 Theorem bw_is_rule tr : forall x r yx yr t,
-  chain K tr x r yx yr -> has_pool K tr = false -> eqn (bw K tr t) (rule_bw K tr t).
+  chain5 tr x r yx yr -> eqn (bw K tr t) (rule_bw K tr t).
 Proof.
-  induction tr as [|l tr IH]; intros x r yx yr t Hc Hp; [intros i; reflexivity|].
+  induction tr as [|l tr IH]; intros x r yx yr t Hc; [intros i; reflexivity|].
   cbn [bw rule_bw].
-  assert (Hp1 : has_pool K [l] = false /\ has_pool K tr = false).
-  { unfold has_pool in *. cbn [existsb] in *. apply orb_false_iff in Hp as [H1 H2]. rewrite H1. auto. }
-  destruct Hp1 as [Hpl Hpt].
-  destruct l as [W b|us|wins vx vr]; cbn [chain] in Hc.
+  destruct l as [W b|us|wins vx vr]; cbn [chain5] in Hc.
   - destruct Hc as (HW & Hd & _ & _ & Hc). intros i.
-    rewrite <- (rule_layer_ext (Affine W b) _ _ (IH _ _ _ _ t Hc Hpt) Hpl).
+    rewrite <- (rule_layer_ext (Affine W b) _ _ (IH _ _ _ _ t Hc) eq_refl).
     cbn [bw_layer rule_layer]. apply rule_affine_eqn. rewrite Hd. exact HW.
   - destruct Hc as (_ & _ & Hu & Hc). intros i.
-    rewrite <- (rule_layer_ext (Act us) _ _ (IH _ _ _ _ t Hc Hpt) Hpl).
+    rewrite <- (rule_layer_ext (Act us) _ _ (IH _ _ _ _ t Hc) eq_refl).
     cbn [bw_layer rule_layer]. apply rule_act_eqn. exact Hu.
-  - cbn in Hpl. discriminate.
+  - destruct Hc.
+Qed.
+
+Lemma veqb_eq5 a b : veqb K a b = true -> a = b.
+Proof.
+  unfold veqb. revert b; induction a as [|x a IH]; intros [|y b] H; cbn in H; try discriminate; [reflexivity|].
+  apply andb_true_iff in H as [H1 H2]. f_equal; [apply feqb_eq; exact H1 | apply IH; exact H2].
+Qed.
+
+Lemma chain5b_ok net : forall x r yx yr, chain5b K net x r yx yr = true -> chain5 net x r yx yr.
+Proof.
+  induction net as [|l net IH]; intros x r yx yr H.
+  - cbn in H. apply andb_true_iff in H as [H1 H2]. split; apply veqb_eq5; assumption.
+  - destruct l as [W b|us|wins vx vr]; cbn [chain5b] in H; cbn [chain5]; [| |discriminate];
+      repeat (apply andb_true_iff in H as [H ?]).
+    + repeat split; try (apply Nat.eqb_eq; assumption); [|apply IH; assumption].
+      apply Forall_forall. intros row Hr. rewrite forallb_forall in H. apply Nat.eqb_eq. apply H. exact Hr.
+    + repeat split; try (apply veqb_eq5; assumption); [|apply IH; assumption].
+      apply Forall_forall. intros u Hu.
+      match goal with Hf : forallb (unit_ok5b K) us = true |- _ =>
+        rewrite forallb_forall in Hf; specialize (Hf u Hu); rename Hf into Hq end.
+      unfold unit_ok5b, below_lo in Hq. unfold unit_ok5.
+      apply orb_true_iff in Hq as [Hq|Hq]; [left; exact Hq | right].
+      destruct (small6 K (ix u -! ir u)); [discriminate | reflexivity].
 Qed.
 
 (* ---------------------------------------------------------------- projection formulas *)
@@ -255,11 +293,22 @@ End Theory05.
 (* ==================================================================== the Qc instance *)
 Local Open Scope Qc_scope.
 
-Definition bw_is_rule_Qc := bw_is_rule QcX QcX_field QcX_small6 Qc_eq_bool_correct Qc_eq_bool_refl'.
+Lemma QcX_small_mono (d : QcX) : small7 QcX d = true -> small6 QcX d = true.
+Proof.
+  change (Qc_small eps7 d = true -> Qc_small eps6 d = true). unfold Qc_small. intros H.
+  apply negb_true_iff. apply negb_true_iff in H.
+  destruct (Qc_leb eps6 (Qcabs d)) eqn:E; [|reflexivity].
+  apply Qc_leb_iff in E. assert (E7 : eps7 <= eps6) by (apply Qc_leb_iff; vm_compute; reflexivity).
+  assert (X : Qc_leb eps7 (Qcabs d) = true) by (apply Qc_leb_iff; apply Qcle_trans with eps6; assumption).
+  rewrite X in H. discriminate.
+Qed.
+
+Definition bw_is_rule_Qc := bw_is_rule QcX QcX_field QcX_small_mono Qc_eq_bool_correct.
+Definition chain5b_ok_Qc := chain5b_ok QcX Qc_eq_bool_correct.
 Definition hypothetical_formula_Qc := hypothetical_formula QcX.
 Definition attributions_formula_Qc := attributions_formula QcX.
 Definition closed_form_Qc := closed_form QcX QcX_field.
-Definition taff_onehot_Qc := taff_onehot QcX QcX_field Qc_eq_bool_correct Qc_eq_bool_refl'.
+Definition taff_onehot_Qc := taff_onehot QcX QcX_field QcX_small_mono Qc_eq_bool_correct.
 
 Lemma tol9_nonneg : 0 <= tol9.
 Proof. unfold Qcle, Qle; cbn; lia. Qed.
@@ -290,7 +339,7 @@ Qed.
    reference, and every pair's trace is consistent and band-free (C04.Proofs.chain) *)
 Definition scope_pair05 (e : ecall) (p : pair) : Prop :=
   let rr := run QcX (p_net p) (e_x e) (p_ref p) in
-  chain QcX (fst rr) (e_x e) (p_ref p) (fst (snd rr)) (snd (snd rr)) /\
+  chain5 QcX (fst rr) (e_x e) (p_ref p) (fst (snd rr)) (snd (snd rr)) /\
   length (fst (snd rr)) = e_nout e.
 Definition scope05 (e : ecall) : Prop :=
   (exists s, e_x e = ohe QcX (e_A e) (e_L e) s) /\ length (e_x e) = e_n e /\
@@ -325,7 +374,7 @@ Proof.
   - (* multipliers = pointwise rescale-rule evaluation *)
     unfold ms. apply all2_map_r. intros p Hin. apply vclose'_eqn.
     destruct (Hp p Hin) as [Hc _].
-    exact (bw_is_rule_Qc _ _ _ _ _ (onehot QcX (e_nout e) (e_target e)) Hc (Hnp p Hin)).
+    exact (bw_is_rule_Qc _ _ _ _ _ (onehot QcX (e_nout e) (e_target e)) Hc).
   - rewrite (hypothetical_formula_Qc (e_A e) (e_L e) ms refs Hl). apply vclose'_refl.
   - rewrite (attributions_formula_Qc (e_A e) (e_L e) (e_x e) ms refs Hl Hx). apply vclose'_refl.
   - destruct (single_affine e) as [W|] eqn:Esa; [|reflexivity].
@@ -369,7 +418,7 @@ Proof.
   split; [eexists; exact H1|]. split; [exact H2|].
   split; [intros E; rewrite E in H3; discriminate|]. split; [exact H4|].
   apply Forall_forall. intros p Hp. specialize (H5 p Hp). unfold scope_pair05b in H5. unfold scope_pair05.
-  cbv zeta in *. apply andb_true_iff in H5 as [G1 G2]. apply Nat.eqb_eq in G2. apply chainb_ok_Qc in G1.
+  cbv zeta in *. apply andb_true_iff in H5 as [G1 G2]. apply Nat.eqb_eq in G2. apply chain5b_ok_Qc in G1.
   split; assumption.
 Qed.
 
